@@ -638,3 +638,33 @@ Proof.
 Qed.
 End WithDedupEnum.
 Print Assumptions enum_parse_complete.
+
+(* finding D16, as it was: without the end-of-body check the last unit variant of `enum E { A, B }` gets the empty unnamed type
+   (next_type on the empty stream, ParseProof.nt_empty_ok) and is then matched as a tuple-like variant by the templates *)
+Fixpoint variants_loop_old (fuel k: nat) (acc: list field) (s: list tt) : res (list field) :=
+  match k with 0 => Fuel | S k' =>
+  match s with
+  | [] => Ok acc []
+  | _ =>
+    bind (attrs_list (S (List.length s)) [] s) (fun attrs s1 =>
+      match s1 with
+      | TId vname :: s2 =>
+          bind (next_type fuel s2) (fun o s3 =>
+            match o with
+            | None =>
+                let s4 := match s3 with TP PComma :: r => r | _ => s3 end in
+                variants_loop_old fuel k' (acc ++ [{| f_attrs := attrs; f_name := Some vname; f_ty := Ty CNone None None None |}]) s4
+            | Some t =>
+                let s4 := match s3 with TP PSemi :: r => r | _ => s3 end in
+                let s5 := match s4 with TP PComma :: r => r | _ => s4 end in
+                variants_loop_old fuel k' (acc ++ [{| f_attrs := attrs; f_name := Some vname; f_ty := t |}]) s5
+            end)
+      | _ => Panic
+      end)
+  end end.
+Example last_unit_variant_old_refuted :
+  variants_loop_old 5 5 [] [TId "A"; TP PComma; TId "B"]
+  = Ok [ {| f_attrs := []; f_name := Some "A"; f_ty := Ty CNone None None None |}; {| f_attrs := []; f_name := Some "B"; f_ty := unnamed |} ] []
+  /\ variants_loop 5 5 [] [TId "A"; TP PComma; TId "B"]
+  = Ok [ {| f_attrs := []; f_name := Some "A"; f_ty := Ty CNone None None None |}; {| f_attrs := []; f_name := Some "B"; f_ty := Ty CNone None None None |} ] [].
+Proof. split; reflexivity. Qed.
